@@ -794,9 +794,9 @@ def parts(ctx):
         return strategy(maxlen).map(lambda c: dict(c, maxlen=maxlen))
 
     return [
-        HypPart("otfad", sized(_otfad_case, big), run_otfad, {"quick": 5000, "thorough": 100000}),
-        HypPart("otfad_cfg", sized(_otfad_cfg_case, 4096 if ctx.quick else 65536), lambda c, o: run_otfad_cfg(c, o, work), {"quick": 1200, "thorough": 24000}),
-        HypPart("iee", sized(_iee_case, big), run_iee, {"quick": 4000, "thorough": 80000}),
-        HypPart("iee_cfg", sized(_iee_cfg_case, 8192 if ctx.quick else 65536), lambda c, o: run_iee_cfg(c, o, work), {"quick": 1000, "thorough": 20000}),
-        HypPart("bee", sized(_bee_case, big), lambda c, o: run_bee(c, o, work), {"quick": 4000, "thorough": 80000}),
+        HypPart("otfad", sized(_otfad_case, big), run_otfad, {"quick": 4000, "thorough": 100000}),
+        HypPart("otfad_cfg", sized(_otfad_cfg_case, 4096 if ctx.quick else 65536), lambda c, o: run_otfad_cfg(c, o, work), {"quick": 1000, "thorough": 24000}),
+        HypPart("iee", sized(_iee_case, big), run_iee, {"quick": 3000, "thorough": 80000}),
+        HypPart("iee_cfg", sized(_iee_cfg_case, 8192 if ctx.quick else 65536), lambda c, o: run_iee_cfg(c, o, work), {"quick": 800, "thorough": 20000}),
+        HypPart("bee", sized(_bee_case, big), lambda c, o: run_bee(c, o, work), {"quick": 3000, "thorough": 80000}),
     ]
